@@ -47,6 +47,67 @@ def _string_source(u, e):
     return None
 
 
+def _eval_bundle_p(u, fn, data):
+    """rtosc_bundle_p evaluated on a buffer (the bytes, then zeros)"""
+    BASE_ = 1 << 20
+
+    def deref(a, n):
+        k = a - BASE_
+        if 0 <= k < len(data) + 16:
+            return data[k] if k < len(data) else 0
+        raise FD.Unknown("read at offset %d" % k, n)
+
+    def text(v, n):
+        if isinstance(v, str):
+            return v.encode("latin-1")
+        out = bytearray()
+        while True:
+            c = deref(v + len(out), n)
+            if not c:
+                return bytes(out)
+            out.append(c)
+
+    def hook(n, ev):
+        k = n.get("kind")
+        ks = A.kids(n)
+        if k == "StringLiteral":
+            return A.string_literal(n)
+        if k == "ImplicitCastExpr" and n.get("castKind") == "ArrayToPointerDecay" and ks:
+            s_ = _string_source(u, ks[0])
+            if s_ is not None:
+                return s_
+        if k == "DeclRefExpr" and (n.get("referencedDecl") or {}).get("id") not in ev.env:
+            s_ = _string_source(u, n)
+            if s_ is not None:
+                return s_
+        return NotImplemented
+
+    def call(nm, v, n):
+        nm = nm.replace("__builtin_", "")
+        if nm == "strcmp":
+            a, b = text(v[0], n), text(v[1], n)
+            return 0 if a == b else (1 if a > b else -1)
+        if nm in ("strncmp", "memcmp"):
+            def first(x):
+                if isinstance(x, str):
+                    return (x.encode("latin-1") + bytes(v[2]))[:v[2]]
+                return bytes(deref(x + i, n) for i in range(v[2]))
+            a, b = first(v[0]), first(v[1])
+            if nm == "strncmp":
+                a, b = a.split(b"\0")[0], b.split(b"\0")[0]
+            return 0 if a == b else (1 if a > b else -1)
+        if nm == "strlen":
+            return len(text(v[0], n))
+        fs_ = [f_ for f_ in u.functions.get(nm, []) if u.body(f_) is not None]
+        if len(fs_) == 1:
+            return holder["ev"].call_function(u, fs_[0], v)
+        raise FD.Unknown("call to %s" % nm, n)
+    holder = {}
+    ev = FD.Eval(deref=deref, node_hook=hook, call=call, max_steps=2000)
+    holder["ev"] = ev
+    return ev.call_function(u, fn, [BASE_])
+
+
 def _const_value(u, e):
     v = A.int_literal(e)
     if v is not None:
@@ -206,11 +267,25 @@ def run(ctx):
     ctx.ob("R08.4", "rtosc_bundle:magic-written", lits == [MAGIC], site=A.where(fn), detail={"literal": lits},
            what="rtosc_bundle writes magic %r, expected %r" % (lits, MAGIC))
     fn = u.function("rtosc_bundle_p")
-    lits = [A.string_literal(a) for c in A.calls_in(u.body(fn)) if A.callee_name(c) in ("strcmp", "memcmp", "strncmp") for a in A.kids(c)[1:] if A.string_literal(a) is not None]
-    rets = [x for x in A.walk(u.body(fn)) if x.get("kind") == "ReturnStmt"]
-    neg = len(rets) == 1 and A.strip_casts(A.kids(rets[0])[0]).get("kind") == "UnaryOperator" and A.strip_casts(A.kids(rets[0])[0]).get("opcode") == "!"
-    ctx.ob("R08.4", "rtosc_bundle_p:magic-compared", lits == [MAGIC] and neg, site=A.where(fn), detail={"literal": lits, "returns_negated_strcmp": neg},
-           what="rtosc_bundle_p compares with %r (negated: %s), expected !strcmp(msg, %r)" % (lits, neg, MAGIC))
+    # evaluated on probe buffers: exactly the buffers that begin with the eight bytes "#bundle\0" are bundles
+    P_PROBES = [(b"#bundle\0" + bytes(8), True), (b"#bundle\0", True), (b"#bundleX" + bytes(8), False), (b"#bundl\0\0" + bytes(8), False), (b"/a\0\0,\0\0\0", False),
+                (b"\0\0\0\0", False), (b"#Bundle\0" + bytes(8), False), (b"/#bundle\0\0\0\0", False), (b"#bundle/x\0\0\0", False)]
+    badp = []
+    try:
+        for data_, want_ in P_PROBES:
+            got_ = _eval_bundle_p(u, fn, data_)
+            if bool(got_) != want_:
+                badp.append({"buffer": data_[:12].hex(), "is_bundle": bool(got_), "expected": want_})
+        ctx.ob("R08.4", "rtosc_bundle_p:magic-compared", not badp, site=A.where(fn), detail={"probes": len(P_PROBES), "mismatches": badp[:4]},
+               what="rtosc_bundle_p, evaluated on probe buffers, does not tell exactly the buffers that begin with \"#bundle\\0\" for bundles: %s" % badp[:3])
+    except FD.Unknown as e_p:
+        lits = [_string_source(u, a) for c in A.calls_in(u.body(fn)) if A.callee_name(c) in ("strcmp", "memcmp", "strncmp") for a in A.kids(c)[1:] if _string_source(u, a) is not None]
+        rets = [x for x in A.walk(u.body(fn)) if x.get("kind") == "ReturnStmt"]
+        neg = len(rets) == 1 and A.strip_casts(A.kids(rets[0])[0]).get("kind") == "UnaryOperator" and A.strip_casts(A.kids(rets[0])[0]).get("opcode") == "!"
+        if not lits or not rets:
+            raise AnalysisBroken("R08.4: rtosc_bundle_p is neither evaluable (%s) nor a negated comparison with a literal" % e_p)
+        ctx.ob("R08.4", "rtosc_bundle_p:magic-compared", lits == [MAGIC] and neg, site=A.where(fn), detail={"literal": lits, "returns_negated_strcmp": neg},
+               what="rtosc_bundle_p compares with %r (negated: %s), expected !strcmp(msg, %r)" % (lits, neg, MAGIC))
     fn = u.function("rtosc_message_ring_length")
     # which buffers are handed to bundle_ring_length: evaluated on probes (the test may be eight comparisons, a loop over a
     # table, a helper ...)
@@ -372,7 +447,9 @@ def run(ctx):
         init_ = A.kids(tot)[-1]
         parts = [(sg, _const_value(u, t_)) for sg, t_ in C._additive_terms(init_)]
         iv = sum(sg * v_ for sg, v_ in parts) if all(v_ is not None for _, v_ in parts) else None
-    if writer_by_shape:
+    if writer_by_shape and iv is None:
+        ctx.note("R08.5: the total rtosc_bundle compares with its capacity does not start from a constant in the function itself (a helper computes it); what fits is decided by R08.10 at the capacities needed and needed-1")
+    if writer_by_shape and iv is not None:
       ctx.ob("R08.5", "rtosc_bundle:precomputed-header-size", iv == seen.get("elements"), site=A.where(tot) if tot is not None else A.where(fnb),
            detail={"initial_total": iv, "first_element_offset": seen.get("elements")},
            what="rtosc_bundle pre-computes a header of %s bytes but writes its first element at offset %s" % (iv, seen.get("elements")))
